@@ -35,6 +35,28 @@ def fresh (e : EngineD α) : Sess α :=
 def restart (s : Sess α) : Sess α :=
   { engine := setInputs s.engine (s.engine.inputs.map (fun _ => X.nan)), outs := clearedOuts s.engine }
 
+/-- `Engine.restart` with the step the model above leaves out: `rule_block.reload_rules(self)` for every block, which
+    raises `RuntimeError` when a rule of the block does not load (a rule created without an engine whose text names an
+    unknown variable or term, a rule whose variable was renamed since).  `reload b` is what that call does to the block
+    `b`: the block afterwards – `.ok` when it returns, `.error` when it raises.  The restart then stops *between* the two
+    other steps: the input values are NaN already, the output variables are not cleared (result `.error`: the session
+    as the exception leaves it – the blocks before the failing one reloaded, the failing one as its `reload_rules` left
+    it, the others untouched).  `restart` is the case in which every block reloads to itself
+    (`C13.restartR_eq_restart`). -/
+def reloadBlocks (reload : Block α → Except (Block α) (Block α)) :
+    List (Block α) → List (Block α) → Except (List (Block α) × Block α × List (Block α)) (List (Block α))
+  | [], done => .ok done
+  | b :: bs, done =>
+    match reload b with
+    | .ok b' => reloadBlocks reload bs (done ++ [b'])
+    | .error b' => .error (done, b', bs)             -- reloaded so far, the failing block as it was left, not reached
+
+def restartR (reload : Block α → Except (Block α) (Block α)) (s : Sess α) : Except (Sess α) (Sess α) :=
+  let e1 := setInputs s.engine (s.engine.inputs.map (fun _ => X.nan))
+  match reloadBlocks reload e1.blocks [] with
+  | .error (done, b, rest) => .error { engine := { e1 with blocks := done ++ b :: rest }, outs := s.outs }
+  | .ok bs => .ok { engine := { e1 with blocks := bs }, outs := clearedOuts s.engine }
+
 def values (s : Sess α) : List (X α) := s.outs.map (fun o => Op.lastOr .nan o.value)
 
 /-- `OutputVariable.defuzzify` of one output for the raw value of this step (`none`: disabled, nothing to do) -/
